@@ -46,6 +46,14 @@ def cases(ctx):
             continue
         for api in (("get", "getnext", "walk") if v[0] == "Null" or not q else (("get", "getnext", "walk")[(i // 3) % 3],)):
             C.append(dict(proto=PROTOS[(i + 3) % len(PROTOS)], values=[(v[0], v[1], None)], forms={}, form="single", api=api))
+    # (a3) the same values as they reach a caller of the pythonic API: int, bytes, str OID, IPv4Address, timedelta (to the tick), None
+    pyvals = [v for v in vals if v[0] not in ("NoSuchObject", "NoSuchInstance", "EndOfMibView")] + [("TimeTicks", 0), ("TimeTicks", 1), ("Counter", 0), ("Integer", 0), ("Gauge", 0), ("Counter64", 0)]
+    for i, v in enumerate(pyvals):
+        if q and i % 2 and v[1] not in (0, None, b""):
+            continue
+        C.append(dict(proto=PROTOS[(i + 5) % len(PROTOS)], values=[(v[0], v[1], None)], forms={}, form="pythonic", api="py.get"))
+    for _ in range(10 if q else 100):
+        C.append(dict(proto=rnd.choice(PROTOS), values=[rnd.choice(pyvals) + (None,) for _ in range(rnd.choice([2, 5]))], forms={}, form="pythonic", api="py.multiget"))
     # (c) binding list lengths 0..40 and error-index / request-id values
     for n in ([0, 1, 2, 40] if q else list(range(0, 41))):
         C.append(dict(proto=rnd.choice(PROTOS), values=[rnd.choice(vals) + (None,) for _ in range(n)], forms={}, form="count%d" % n))
@@ -77,7 +85,7 @@ def run(ctx):
     ctx.rule = ("responses built by the reference encoder from the value lattice (every base/application type and the three exception markers at and around "
                 "every byte boundary, strings of length 0..65400, OIDs with sub-identifiers up to 2^32-1, binding lists of 0..40, request-id / error-index "
                 "values) in every definite length form (short, minimal long, long with 1..4 length octets applied to all TLVs at once and to one TLV class at "
-                "a time) fed to Client.multiget over v1/v2c/v3 levels; TLC decodes the same bytes with Ber.tla and compares type and value with what the "
+                "a time) fed to Client.multiget (single values also through get / getnext / walk, and through PyWrapper.get / multiget with the documented conversion of each type) over v1/v2c/v3 levels; TLC decodes the same bytes with Ber.tla and compares type and value with what the "
                 "caller received; the library's decode entry points re-encode PDU / scoped PDU / USM parameters / message and TLC compares contents")
     ctx.assumptions = ["integer contents octets are minimal (X.690 8.3.2); only length forms vary", "unsigned application types are sent as non-negative two's complement"]
 
